@@ -24,9 +24,12 @@ C03 / C11 model: `osyris.plot.map.map` (zero-thickness and thick maps) and the n
   The division of every length by `div = dx` before the kernel call (:362-382) is a positive
   rescaling of every quantity the kernel compares; it changes no decision in exact arithmetic and is
   not modelled.  `np.linspace(xmin+½Δ, xmax−½Δ, n)` is the list `xmin + (i+½)Δ`.
-* `Sel`           the two pre-selection tests and the depth range of a thick map without dx can be
-                  run `coded` or `sound` (slab: dz/2 + ½·diag·s;  radial: |xyz| − ½·s·diag ≤
-                  max(…)·0.6·diag;  depth range: [−dz/2, dz/2] instead of the extent of the selected cells).
+* `Sel`           four formulas can be run `coded` (the unchanged source) or `sound`; the harness detects
+                  from the source text which form the working tree has:
+                    slab     ½·diag·dz                              | dz/2 + ½·diag·s
+                    radial   |xyz − ½·s·diag·(1,1,1)| ≤ R           | |xyz| − ½·s·diag ≤ R,  R = max(dx,dy,dz)·0.6·diag
+                    depth    (thick, dx omitted) depth range = extent of the selected cells | [−dz/2, dz/2]
+                    depth2d  (thick, 2-D data) depth footprint from Z = 0 and half_size     | the whole depth range
 * threads         `prange` over cells: every thread executes the stores of its chunk of cells;
                   schedules are the interleavings of `Hist.interleave` (atomic element stores).
 
@@ -215,6 +218,9 @@ structure Grid where
   zc0 : Rat
   zstep : Rat
   diag : Rat
+  /-- every cell writes the whole depth range (sound treatment of 2-D data, where depth is not a
+      coordinate of the cells); as coded: `false`, the depth footprint is computed like the other two -/
+  zfull : Bool := false
   deriving Repr, Inhabited
 
 def Grid.xc (g : Grid) (i : Nat) : Rat := g.xlo + ((i : Rat) + 1 / 2) * g.xsp
@@ -254,7 +260,7 @@ def hit (g : Grid) (c : KCell) (p : V3) : Bool :=
 /-- the pixels `(k, j, i)` a cell writes: inside its footprint and passing the containment test -/
 def pixHits (g : Grid) (c : KCell) : List (Nat × Nat × Nat) :=
   let h := c.hs * g.diag
-  (rangeI (fpLo c.Z h g.zlo g.zsp) (fpHi c.Z h g.zlo g.zsp g.nz)).flatMap fun k =>
+  (if g.zfull then List.range g.nz else rangeI (fpLo c.Z h g.zlo g.zsp) (fpHi c.Z h g.zlo g.zsp g.nz)).flatMap fun k =>
     (rangeI (fpLo c.Y h g.ylo g.ysp) (fpHi c.Y h g.ylo g.ysp g.ny)).flatMap fun j =>
       (rangeI (fpLo c.X h g.xlo g.xsp) (fpHi c.X h g.xlo g.xsp g.nx)).filterMap fun i =>
         if hit g c (g.pos i j k) then some (k, j, i) else none
@@ -328,6 +334,9 @@ structure Cfg where
   /-- depth range of a thick map whose dx is not given: coded = extent of the selected cells
       (dz only enters the slab pre-selection), sound = [-dz/2, dz/2] -/
   depth : Sel
+  /-- depth footprint for 2-D data: coded = from Z = 0 and half_size like the other axes (depth samples
+      further than half_size from the plane are never written), sound = the whole depth range -/
+  depth2d : Sel
   /-- `(1.0 * spatial_unit).to(map_unit).magnitude` -/
   scale : Rat
   deriving Repr, Inhabited
@@ -456,7 +465,8 @@ def mkGrid (cfg : Cfg) (w : Window) : Except Fail Grid :=
     if zsp = 0 then .error .badGrid else
     .ok { ndim := cfg.ndim, u := cfg.u, v := cfg.v, n := cfg.n, xlo := w.xmin, ylo := w.ymin, zlo := w.zmin,
           xsp := xsp, ysp := ysp, zsp := zsp, nx := cfg.nx, ny := cfg.ny, nz := nz,
-          zc0 := w.zmin + (1 : Rat) / 2 * zsp, zstep := zsp, diag := cfg.diag }
+          zc0 := w.zmin + (1 : Rat) / 2 * zsp, zstep := zsp, diag := cfg.diag,
+          zfull := cfg.ndim != 3 && cfg.depth2d == .sound }
   else
     -- `zmin = 0.0; zspacing = zmax - zmin; zcenters = [0.0]`
     if w.zmax = 0 then .error .badGrid else
